@@ -301,13 +301,25 @@ def overflow_case(part, item):
     from vf import kfacrun as K
 
     model, mult, rho, method, prediv = item
-    cfg = {'model': model, 'dtype': 'f16', 'batch': 3, 'world': 1, 'seed': 0,
-           'kfac': dict(damping=0.001, factor_decay=0.5, kl_clip=1e-3, lr=0.1,
-                        factor_dtype='f32', factor_update_steps=10,
-                        inv_update_steps=1, compute_method=method,
-                        compute_eigenvalue_outer_product=prediv),
-           'sgd_lr': 0.0, 'loss_mult': mult,
-           'history': [['train'], ['setcorr', rho], ['train'], ['train']]}
+    if rho == 'f16-factors':
+        # float16 FACTORS with many rows of large inputs: the batch moments
+        # are O(1e3) although the raw sums of squares exceed the range
+        cfg = {'model': model, 'dtype': 'f32', 'batch': 64, 'world': 1,
+               'seed': 0, 'x_mult': mult, 'loss_mult': 0.1, 'sgd_lr': 0.0,
+               'kfac': dict(damping=0.1, factor_decay=0.5, kl_clip=1e-3,
+                            lr=0.1, factor_dtype='f16', compute_method=method,
+                            compute_eigenvalue_outer_product=prediv),
+               'history': [['train']] * 3}
+    else:
+        cfg = {'model': model, 'dtype': 'f16', 'batch': 3, 'world': 1,
+               'seed': 0,
+               'kfac': dict(damping=0.001, factor_decay=0.5, kl_clip=1e-3,
+                            lr=0.1, factor_dtype='f32',
+                            factor_update_steps=10, inv_update_steps=1,
+                            compute_method=method,
+                            compute_eigenvalue_outer_product=prediv),
+               'sgd_lr': 0.0, 'loss_mult': mult,
+               'history': [['train'], ['setcorr', rho], ['train'], ['train']]}
     name = f'overflow/{model}/f16/mult={mult}/rho={rho}/{method}/{prediv}'
     part.count('evaluations')
     try:
@@ -322,7 +334,8 @@ def overflow_case(part, item):
         if not all(_t.isfinite(g).all() for g in ev['D'].values()):
             return  # inputs not finite: outside the statement
         prods = [(ev['P'][pn].float() * ev['D'][pn].float()) for pn in ev['P']]
-        if any((p.abs() > 65504).any() for p in prods):
+        if any((p.abs() > 65504).any() for p in prods) or \
+                rho == 'f16-factors':
             part.seen('nontrivial', name)
         for pn, g in ev['P'].items():
             if not _t.isfinite(g).all():
@@ -373,6 +386,9 @@ def main(run: core.Run):
           for mult in (300.0, 1000.0) for rho in (0.9, 0.97)
           for meth, pre in (('eigen', True), ('eigen', False),
                             ('inverse', False))]
+    ov += [(m, 40.0, 'f16-factors', meth, pre) for m in ('lin1', 'mlp2')
+           for meth, pre in (('eigen', True), ('eigen', False),
+                             ('inverse', False))]
     core.pmap(run, overflow_case, ov, chunk=1)
     run.c['states'] = run.c.get('evaluations', 0)
     run.c['transitions'] = run.c.get('evaluations', 0)
